@@ -191,6 +191,13 @@ def rule_ffm2(ctx):
     cat = m.func('get_thrust_cat_cruise')
     sel = [c for c in calls_in(cat.node) if call_name(c) in ('np.select', 'numpy.select')]
     if len(sel) != 1:
+        dg = [c for c in calls_in(cat.node) if call_name(c).split('.')[-1] in ('digitize', 'searchsorted')]
+        if dg:
+            ctx.ob('C12-R4', cat, f'categories by {call_name(dg[0])}({", ".join(norm(a)[:30] for a in dg[0].args)})', False,
+                   'bin look-ups assume ordered thresholds: for non-monotone calibration flows (idle/approach mid-point '
+                   'above approach/climb mid-point) the bins are numbered from the top and the category is anti-monotone '
+                   'in fuel flow, contradicting the documented rule', line=dg[0].lineno)
+            return
         ctx.undecided('C12-R4', cat, 'np.select', f'{len(sel)} np.select calls')
     s = sel[0]
     conds = [norm(e) for e in s.args[0].elts] if isinstance(s.args[0], ast.List) else []
